@@ -552,6 +552,16 @@ Proof.
 Qed.
 Print Assumptions c14_bytes_requesting_thread.
 
+(* Which streams are required and what an unreadable optional stream means is the source's: every (stream type, treatment) pair
+   the byte-level model relies on is among the get_stream calls of MinidumpInfo::new as regenerated on every run (`.or(Err(..))?` =
+   required, `.ok()` / `if let Ok` = treated as absent, `unwrap_or_else(default)` / `Err(_) => new()` = empty list); and a parsed
+   file is processed exactly when the reader serves a system info and a thread list. *)
+Theorem c14_stream_policy_is_source :
+  forallb (policy_in GEN_STREAM_POLICY) stream_policy = true /\
+  forall rc v, dump_of_view rc v <> None <-> (exists s, v_sysinfo v = SOk s) /\ (exists ts, v_threads v = SOk ts).
+Proof. split; [exact stream_policy_is_source|exact view_required]. Qed.
+Print Assumptions c14_stream_policy_is_source.
+
 (* The same choice for ANY file the reader accepts (not only serialized models: hostile directories, unreadable optional
    streams): in terms of what get_stream serves - an exception / Breakpad info stream that is missing OR unreadable counts as absent. *)
 Theorem c14_file_requesting_thread : forall rc bs v d, decode_dump bs = Some v -> dump_of_bytes rc bs = Some d ->
